@@ -747,6 +747,14 @@ func (e *Engine) Run(pkgPath, fnName string) (*RunResult, error) {
 				return
 			}
 			defer solver.Close()
+			for _, sh := range e.Cfg.CrossCheck {
+				if err := solver.AddShadow(sh); err != nil {
+					mu.Lock()
+					firstErr = err
+					mu.Unlock()
+					return
+				}
+			}
 			var cache *initCache
 			for {
 				prefix, ok := wl.pop()
